@@ -1,5 +1,16 @@
 /-
-  D128/Proofs/D192Add.lean — contract of `decomposed192.add` (Go: /repo/decomposed.go), ALL inputs.
+  D128/Proofs/D192Add.lean — Hoare triples (no panic, termination) for `decomposed192.add`
+  (Go: /repo/decomposed.go), ALL inputs.  The 14 loops are handled stage by stage (stages and the
+  `rfl` normal form `add_eq` in `D192AddCode.lean`, predicates and VC lemmas in `D192AddMath.lean`).
+
+  * `addTail_triple`      : sum + final normalisation: `Tr (d.sig + o.sig) t d.exp …`
+  * `addNegDiv_triple`    : the loops dividing `d.sig` (pre: `exp ≤ 0`, `d.exp = o.exp + exp`)
+  * `addNegBranch_triple` : branch `exp < 0`  ⇒ `AddNegPost`
+  * `addPosDiv_triple`    : the loops dividing `o.sig` (flag `flagDiv`: `-1` from `div10000`, `+1` from `div10`)
+  * `addPosBranch_triple` : branch `exp > 0`  ⇒ `AddPosPost`
+  * `add_triple`          : `⦃True⦄ Gen.decomposed192.add d o t ⦃AddPost d o t⦄`
+  The result equation `add_spec`, the rational contract `add_contract` and the flag finding
+  `add_flag_defect` are in `D192AddContract.lean`.
 -/
 import D128.Proofs.D192AddMath
 import D128.Proofs.D192AddCode
@@ -134,20 +145,6 @@ theorem addPosBranch_triple (d o : Gen.decomposed192) (t : Int8) (e : Int16) :
   case vc13 => rename_i hinv _ hg hz; exact addPos_postB hinv hg hz
   case vc14 => rename_i hinv _; exact hinv.1.1
   case vc15 => rename_i hinv _ hg; exact addPos_postC hinv hg
-
-theorem i16_dec_lt0 {x : Int16} (h : decide (x < 0) = true) : x.toInt < 0 := by
-  have := (i16_lt_lit _ _).mp (of_decide_eq_true h); simpa using this
-
-theorem i16_dec_gt0 {x : Int16} (h : decide (x > 0) = true) : 0 < x.toInt := by
-  have := (i16_lt_lit _ _).mp (of_decide_eq_true h); simpa using this
-
-theorem i16_dec_eq0 {x : Int16} (h1 : ¬ decide (x < 0) = true) (h2 : ¬ decide (x > 0) = true) :
-    x.toInt = 0 := by
-  have a : ¬ x < 0 := fun h => h1 (decide_eq_true h)
-  have b : ¬ x > 0 := fun h => h2 (decide_eq_true h)
-  rw [i16_lt_lit] at a
-  rw [gt_iff_lt, i16_lt_lit] at b
-  simp at a b; omega
 
 theorem add_triple (d o : Gen.decomposed192) (t : Int8) :
     ⦃⌜True⌝⦄ Gen.decomposed192.add d o t ⦃⇓ x => ⌜AddPost d o t x.1 x.2⌝⦄ := by
